@@ -305,6 +305,9 @@ let () =
                      let got = (match split_ws p.pres with [ _; v ] -> v | _ -> "?") in
                      let expect =
                        match ty with
+                       (* the marker T::MAX when 2^vars is not representable; the count 0 of the
+                          unsatisfiable function stays 0 in every type (coq/DD/SatCount.v, [saturate]) *)
+                       | ("u64" | "u128") when Z.sign exact = 0 -> "0"
                        | "u64" -> if Z.numbits (Z.pow (Z.of_int 2) vars) > 64 then "18446744073709551615" else Z.to_string exact
                        | "u128" -> if Z.numbits (Z.pow (Z.of_int 2) vars) > 128 then "340282366920938463463374607431768211455" else Z.to_string exact
                        | "nat" | "nat_fresh" -> Z.to_string exact
